@@ -48,7 +48,10 @@ def gen_budget(rng, profile='migrate', year=2025):
             lay = st.gen_layout(rng, rich=False, simple=False, delimiter='regex')
         else:
             lay = st.gen_layout(rng, rich=False, simple=simple_st)
-        rows = st.gen_rows(rng, rng.randint(1 if profile == 'migrate' else 0, 6), first_id=rid, year=year)
+        n_rows = rng.randint(1 if profile == 'migrate' else 0, 6)
+        if profile == 'full' and rng.random() < 0.04:
+            n_rows = rng.randint(140, 380)      # now and then a long statement
+        rows = st.gen_rows(rng, n_rows, first_id=rid, year=year)
         rid += len(rows) + 1
         st.fill_caps(rng, lay, rows)
         file = 'data/%s.csv' % nm.lower()
@@ -189,6 +192,18 @@ def gen_budget(rng, profile='migrate', year=2025):
     # views
     if profile != 'migrate' and rng.random() < 0.5:
         b['views_model'] = rf.gen_views_model(rng, rng.randint(1, 3), simple=True)
+        if profile == 'full' and rng.random() < 0.4:
+            # a file-level variable and a view that defines the same name for itself: each view sees its own scope
+            vm = b['views_model']
+            lo, hi = rng.choice([(10, 100), (100, 1000), (50, 5000)])
+            vm['globals'].append(['limit', str(lo)])
+            pair = [{'name': 'Large', 'filter': 'total > limit', 'description': None, 'vars': [['limit', str(hi)]]},
+                    {'name': 'Notable', 'filter': 'total > limit', 'description': None, 'vars': []}]
+            if rng.random() < 0.3:
+                pair.append({'name': 'Huge', 'filter': 'total > limit', 'description': None, 'vars': [['limit', str(hi * 10)]]})
+            rng.shuffle(pair)
+            for v in pair:
+                vm['views'].insert(rng.randint(0, len(vm['views'])), v)
     # settings extras
     if rng.random() < 0.2:
         b['currency_format'] = rng.choice(['€{amount}', '{amount} zl', '£{amount}'])
@@ -279,3 +294,39 @@ def render_budget(b, rng):
     for p, c in b['bystanders'].items():
         files[p] = c
     return files
+
+
+def add_symlinks(files, b, rng, kinds=('rules-file', 'data-file', 'config-dir', 'views-file')):
+    """Turns one place of a rendered budget into a symbolic link (relative target inside the world), the way synced or shared
+    folders are laid out.  Keys ending in '@' are links.  Returns what was done (or None)."""
+    base = b['base']
+    kind = rng.choice(list(kinds))
+    if kind == 'rules-file':
+        k = base + 'config/merchants.rules'
+        if k not in files:
+            return None
+        files[base + 'shared/household-rules.txt'] = files.pop(k)       # a target whose own name says nothing about its format
+        files[k + '@'] = '../shared/household-rules.txt'
+    elif kind == 'views-file':
+        k = base + 'config/views.rules'
+        if k not in files:
+            return None
+        files[base + 'shared/views.txt'] = files.pop(k)
+        files[k + '@'] = '../shared/views.txt'
+    elif kind == 'data-file':
+        cands = sorted({base + s_['file'] for s_ in b['sources'] if base + s_['file'] in files})
+        if not cands:
+            return None
+        k = rng.choice(cands)
+        t = base + 'downloads/export-' + k.split('/')[-1].replace('.csv', '.txt')
+        files[t] = files.pop(k)
+        files[k + '@'] = '../downloads/' + t.split('/')[-1]
+    else:
+        pre = base + 'config/'
+        moved = [k for k in files if k.startswith(pre)]
+        if not moved:
+            return None
+        for k in moved:
+            files[base + 'store/tally-config/' + k[len(pre):]] = files.pop(k)
+        files[base + 'config@'] = 'store/tally-config'
+    return kind
